@@ -177,7 +177,7 @@ Unexplained(cs) == { e \in bad : e[1] \in cs /\ e[2] = "" }
 Inv_C01 == Unexplained({"C01_range", "C01_converge", "C01_fixpoint", "C01_fresh", "C01_period", "C01_set", "C01_young"}) = {}
 Inv_C02 == Unexplained({"C02_complete", "C02_opdone", "C02_stays"}) = {}
 Inv_C03 == Unexplained({"C03_first", "C03_notearly", "C03_notdead", "C03_prompt", "C03_kids", "C03_stopsig"}) = {}
-Inv_C04 == Unexplained({"C04_list", "C04_count", "C04_owned", "C04_status"}) = {}
+Inv_C04 == Unexplained({"C04_list", "C04_count", "C04_owned", "C04_status", "C04_zombie"}) = {}
 Inv_C05 == Unexplained({"C05_noblock", "C05_readnow", "C05_bound"}) = {}
 Inv_C06 == Unexplained({"C06_reply", "C06_status", "C06_all"}) = {}
 Inv_C08 == Unexplained({"C08_done"}) = {}
